@@ -3,7 +3,7 @@
    abstract per-block search) and Scanner/State.v (what block mode inherits
    from the scanner's and the thread's past; generated from the source). *)
 From Coq Require Import List String NArith ZArith Bool.
-From YV Require Import Pat.Blocks Pat.BlocksProofs Gen.ScanState Scanner.State Scanner.StateProofs.
+From YV Require Import Gen.ScanState Pat.Blocks Pat.BlocksProofs Scanner.State Scanner.StateProofs.
 Import ListNotations.
 Local Open Scope N_scope.
 
@@ -33,6 +33,16 @@ Theorem no_cross_block_match : forall keep scan_one blocks, selects keep -> with
     exists b, In b blocks /\ fst b <= m_start x /\ m_start x + m_len x <= fst b + N.of_nat (List.length (snd b)).
 Proof. exact BlocksProofs.no_cross_block_match. Qed.
 Print Assumptions no_cross_block_match.
+
+(* patterns anchored at a fixed offset (`$a at N` as the only use): in every
+   block, a match is recorded only at absolute offset N, inside a block that
+   contains [N, N + len).  Uses the GENERATED fact that
+   verify_anchored_patterns skips a block whose base is past the anchor. *)
+Theorem anchored_only_at_offset : forall keep file n lit blocks m, selects keep ->
+  In m (anchored_scan keep file n lit blocks) ->
+  m_start m = n /\ exists b, In b blocks /\ fst b <= n /\ n + N.of_nat (List.length lit) <= fst b + snd b.
+Proof. exact BlocksProofs.anchored_scan_only_at_offset. Qed.
+Print Assumptions anchored_only_at_offset.
 
 (* whole-file notions in block mode: whatever the scanner (converted from a
    used Scanner or not) and the other scanners of the thread did before, the
